@@ -40,6 +40,13 @@ func newEngine(tier string) (*Engine, error) {
 	// fail closed: every contract must resolve to a function (interface contracts excepted)
 	for _, k := range cs.Order {
 		c := cs.Funcs[k]
+		if i := strings.Index(k, ".fieldfunc:"); i >= 0 {
+			// contract of the functions stored in a struct field: the field must exist and hold a function
+			if !fieldFuncExists(P, k[:i], k[i+len(".fieldfunc:"):]) {
+				e.errs = append(e.errs, fmt.Sprintf("%s: contract target %s: no such function-typed field in the current tree", c.Pos, k))
+			}
+			continue
+		}
 		if P.Funcs[k] == nil && !strings.HasPrefix(c.Trusted, "interface") && !c.IsFuncType {
 			e.errs = append(e.errs, fmt.Sprintf("%s: contract target %s does not exist in the current tree", c.Pos, k))
 		}
@@ -881,6 +888,30 @@ func isUnverified(cl *Clause) bool {
 	for _, p := range cl.Props {
 		if p == "unverified" {
 			return true
+		}
+	}
+	return false
+}
+
+// fieldFuncExists: package pkg (short name) declares struct type T with a field f of function type ("T.f").
+func fieldFuncExists(P *Program, pkg, tf string) bool {
+	sp := P.ByPkg[pkg]
+	j := strings.Index(tf, ".")
+	if sp == nil || j < 0 {
+		return false
+	}
+	obj := sp.Pkg.Scope().Lookup(tf[:j])
+	if obj == nil {
+		return false
+	}
+	st, ok := obj.Type().Underlying().(*types.Struct)
+	if !ok {
+		return false
+	}
+	for i := 0; i < st.NumFields(); i++ {
+		if st.Field(i).Name() == tf[j+1:] {
+			_, isFunc := st.Field(i).Type().Underlying().(*types.Signature)
+			return isFunc
 		}
 	}
 	return false
